@@ -141,7 +141,7 @@ func driveC18(c *driverCtx) error {
 		}
 	}
 	// format / parse identity on random times (nanosecond precision, whole-minute offsets, years 0000-9999)
-	for i := 0; i < c.pick(600, 30000); i++ {
+	for i := 0; i < c.pick(600, 250000); i++ {
 		t := genTime(c.rng)
 		if i%7 == 0 {
 			t = time.Date(c.rng.Intn(10000), time.Month(1+c.rng.Intn(12)), 1+c.rng.Intn(28), c.rng.Intn(24), c.rng.Intn(60), c.rng.Intn(60), c.rng.Intn(1e9), time.UTC)
